@@ -44,11 +44,17 @@ class {name}({base}):
     uid: int = Field(immutable=True, default=1)
     nick: str = Field(alias='nickName', alias_from=['nn'], required=False)
     secret: str = Field(no_output=True, default='s')
+    fin: typing.Final[int] = Field(ge=1, default=4)
 
     @property
     @Field(dependencies=['name'])
     def label(self) -> str:
         return self.name.upper()
+
+    @property
+    @Field(dependencies=['secret'])
+    def hint(self) -> str:
+        return self.secret[:1]
 '''
 
 # key spellings
@@ -60,6 +66,8 @@ FIELDS = {  # attribute -> (output name, spellings, values [(expr, kind)])
     "nick": ("nickName", ["nick", "nickName", "nn"], [("'n'", "valid"), ("8", "conv")]),
     "secret": ("secret", ["secret"], [("'k'", "valid"), ("9", "conv")]),
     "label": ("label", ["label"], [("'AL'", "valid")]),
+    "fin": ("fin", ["fin"], [("6", "valid"), ("4", "valid")]),
+    "hint": ("hint", ["hint"], [("'z'", "valid")]),
 }
 UNKNOWN = ("zz", [("1", "valid"), ("'5'", "conv"), ("'x'", "other")])
 INIT = ["dict(name='al')", "dict(name='al', age=2, tag='g', nn='m', secret='q')"]
@@ -179,6 +187,8 @@ PRED = {
     "nickName": lambda v: type(v) is str,
     "secret": lambda v: type(v) is str,
     "label": lambda v: type(v) is str,
+    "fin": lambda v: type(v) is int and v >= 1,
+    "hint": lambda v: type(v) is str,
 }
 
 
@@ -216,9 +226,14 @@ def invariant(cls, inst, opt_expr, uid0, base):
             bad.append(("immutable-changed", f"uid is {view.get('uid')!r}, initially {uid0!r}"))
         if "uid" not in view:
             bad.append(("immutable-removed", "immutable field uid was removed from the instance"))
+        if view.get("fin") != 4:
+            bad.append(("final-changed", f"Final field fin is {view.get('fin', '<absent>')!r}, declared default 4"))
+        sec_now = a.get("secret", "s")
+        if "hint" in view and type(sec_now) is str and view["hint"] != sec_now[:1]:
+            bad.append(("stale-property", f"hint == {view['hint']!r} but secret == {sec_now!r}"))
         # views agree
         for attr, (out, spellings, _) in FIELDS.items():
-            if attr in ("secret", "label"):
+            if attr in ("secret", "label", "hint"):
                 continue
             for sp in spellings:
                 try:
@@ -255,6 +270,13 @@ def invariant(cls, inst, opt_expr, uid0, base):
             bad.append(("required-missing", "required field 'name' is gone"))
         if view.get("uid", uid0) != uid0:
             bad.append(("immutable-changed", f"uid is {view.get('uid')!r}, initially {uid0!r}"))
+        if view.get("fin") != 4:
+            bad.append(("final-changed", f"Final field fin is {view.get('fin', '<absent>')!r}, declared default 4"))
+        try:
+            if type(view.get("secret")) is str and inst.hint != view["secret"][:1]:
+                bad.append(("stale-property", f"hint == {inst.hint!r} but secret == {view['secret']!r}"))
+        except Exception as e:
+            bad.append(("property-raises", f"s.hint raised {type(e).__name__}: {e}"))
         try:
             if "name" in view and type(view["name"]) is str and inst.label != view["name"].upper():
                 bad.append(("stale-property", f"label == {inst.label!r} but name == {view['name']!r}"))
